@@ -360,6 +360,12 @@ def check_function(item):
                         d2 = getattr(s2, "dimension", s2)
                         if d1 != d2:
                             continue
+                        # only an exchange the function itself decides on: this path must have branched on a comparison OF THESE TWO
+                        # arguments (min/max by magnitude); a fork about other arguments does not license swapping them
+                        from z3 import z3util
+                        za, zb = str(ses.z(scal[p1])), str(ses.z(scal[p2]))
+                        if not any({za, zb} == {str(v) for v in z3util.get_vars(c_)} for c_ in p.pc):
+                            continue
                         saved = dict(sub)
                         sub[par2sym[p1]], sub[par2sym[p2]] = saved[par2sym[p2]], saved[par2sym[p1]]
                         try:
@@ -550,6 +556,16 @@ if bad:
 '''
 
 
+def sign_sensitive(modname):
+    import importlib.util
+    try:
+        path = importlib.util.find_spec(modname).origin
+        src = open(path, encoding="utf-8").read()
+    except Exception:
+        return False
+    return any(t in src for t in ("sqrt(", "Abs(", "abs(", "sign(", "Max(", "Min(", "Piecewise("))
+
+
 def list_functions():
     out = []
     for m in catalogue.module_names():
@@ -574,6 +590,11 @@ def run(ctx):
     funcs = pmap(_list, [0], procs=1)[0]
     domains = ["positive", "real"] if thorough else ["positive"]
     items = [(m, f, d) for (m, f) in funcs for d in domains]
+    if not thorough:
+        # quick tier: all-real magnitudes as well for the modules whose source is sign-sensitive (square roots, moduli, sign, min/max)
+        for m, f in funcs:
+            if sign_sensitive(m):
+                items.append((m, f, "real"))
     ctx.explanation = (
         "Engines L+S. Each decorated calculate_* function is called (validators included) with quantities whose scale factors are "
         "verification scalars and whose dimensions are the declared ones (angle erased); the body (solve/subs/Quantity/convert_to_float) "
@@ -588,7 +609,7 @@ def run(ctx):
     ctx.functions_encoded = ["every calculate_* of the catalogue that survives lifted execution (counted in coverage)", "quantity_decorator.validate_input/validate_output",
                              "Quantity.__init__", "convert.convert_to_float"]
     ctx.stubs = list(lift.STANDARD_STUBS) + ["float() in core.convert -> identity on symbolic reals", "Quantity._eval_is_positive -> scale_factor.is_positive for symbolic quantities (the original answers False when float() fails, flipping sqrt signs)"]
-    ctx.bounds = ["all magnitudes in the positive domain (quick); plus all real magnitudes (thorough)", "scalar Quantity / float parameters; sequences, vectors, integers: unencoded",
+    ctx.bounds = ["all magnitudes in the positive domain (quick; plus all real magnitudes for modules whose source uses sqrt/Abs/sign/Min/Max/Piecewise); all real magnitudes for every function (thorough)", "scalar Quantity / float parameters; sequences, vectors, integers: unencoded",
                   "algebraic laws with a total symbol mapping; derivative/integral laws only in the two-sample / slope / two-instant patterns of checks/c02_funclaws.py (others unencoded); sum laws unencoded",
                   "vector wrappers: non-zero vector components, positive scalars; law function chosen by name", f"z3 timeout {TIMEOUT_MS} ms, call limit {CALL_TIMEOUT} s"]
     ctx.outside = ["unit choice is covered by construction: only the scale factor reaches the body (C05/C07 decide the reduction to scale factors)", "float rounding below 1e-9 relative",
